@@ -2,10 +2,11 @@
 import math
 
 
-def label(name, attributes=(), family="autoware"):
+def label(name, attributes=(), family="autoware", raw_name=None):
+    """raw_name: the spelling the label was converted from (a dataset says 'vehicle.car', a detector 'car'): it does not take part in label comparisons"""
     from perception_eval.common.label import AutowareLabel, TrafficLightLabel, Label
     cls = AutowareLabel if family == "autoware" else TrafficLightLabel
-    return Label(cls(name), name, list(attributes))
+    return Label(cls(name), raw_name or name, list(attributes))
 
 
 def quat_yaw(yaw):
@@ -34,7 +35,7 @@ def obj3d(d):
         position=(float(d["x"]), float(d["y"]), float(d.get("z", 0.0))), orientation=quat_yaw(d.get("yaw", 0.0)),
         shape=Shape(ShapeType.BOUNDING_BOX, tuple(float(v) for v in d.get("size", (1.0, 2.0, 1.0)))),
         velocity=tuple(d.get("velocity", (0.0, 0.0, 0.0))), semantic_score=float(d.get("score", 0.9)),
-        semantic_label=label(d["label"], d.get("attributes", ())), pointcloud_num=d.get("pts"), uuid=d.get("uuid"))
+        semantic_label=label(d["label"], d.get("attributes", ()), raw_name=d.get("raw_name")), pointcloud_num=d.get("pts"), uuid=d.get("uuid"))
 
 
 def transforms(ego):
